@@ -1,5 +1,5 @@
 (* C09 — the disk spool queue is an exact persistent FIFO across clean restarts. *)
-From CRNG Require Import Base.ListX Base.Bytes Base.Decimal Model.DiskQueue Proofs.DQBasics.
+From CRNG Require Import Base.ListX Base.Bytes Base.Decimal Model.DiskQueue Proofs.DQBasics Proofs.DQReader Proofs.DQFifo.
 
 (* a record is a 4-byte big-endian length followed by the payload; reading it back from any
    position of a file yields the payload and leaves exactly what followed it *)
@@ -17,6 +17,36 @@ Theorem C09_meta_roundtrip :
   forall d rf rp wf wp stale, parse_meta (print_meta d rf rp wf wp ++ stale) = Some (d, rf, rp, wf, wp).
 Proof. exact meta_roundtrip. Qed.
 Print Assumptions C09_meta_roundtrip.
+
+(* The queue is an exact persistent FIFO, through the byte level: for every history of puts, gets, sync ticks
+   and clean restarts (Close + NewDiskQueue on the same directory) whose messages are below 2^31 bytes and
+   whose total volume stays within the first segment (no roll-over; maxBytesPerFile and syncEvery arbitrary),
+   the model of nsqd/diskqueue.go — segment file contents, 4-byte frames, the 4096-byte buffered read handle,
+   the read-ahead of one record, the sync counter, the metadata file written and parsed back — produces exactly
+   the outputs of the abstract queue: gets deliver the put messages in order, each once; a restart loses nothing,
+   duplicates nothing (the record that was read ahead but not delivered is read again) and reports the number
+   of undelivered messages as depth.  (Histories with roll-over are covered by the differential run.) *)
+Theorem C09_fifo_first_segment :
+  forall c ops, fits c 0 ops = true ->
+    fst (dq_run c (dq_open c fs_empty []) ops) = fifo_run [] ops.
+Proof. exact fifo_from_empty. Qed.
+Print Assumptions C09_fifo_first_segment.
+
+(* the read handle: whatever the state of its buffer, reading n bytes at logical position p of the file
+   returns exactly those bytes and leaves the handle consistent at p + n *)
+Theorem C09_buffered_read :
+  forall fuel content h n acc p,
+    hinv content h p -> (p + n <= length content)%nat -> (3 <= fuel)%nat ->
+    exists h', bread fuel content h n acc = Some (acc ++ firstn n (skipn p content), h')
+               /\ hinv content h' (p + n) /\ h_num h' = h_num h.
+Proof. exact bread_spec. Qed.
+Print Assumptions C09_buffered_read.
+
+Example C09_fifo_nonvacuous :
+  fits {| c_max := 1000; c_syncevery := 2 |} 0 [Put [97]; Put [98;98]; Get; CloseReopen; SyncTick; Get; Get] = true
+  /\ fifo_run [] [Put [97]; Put [98;98]; Get; CloseReopen; SyncTick; Get; Get]
+     = [OPut; OPut; OGet (Some [97]); OReopen 1; OTick; OGet (Some [98;98]); OGet None].
+Proof. vm_compute. auto. Qed.
 
 (* non-vacuity / regression: a concrete history with roll-over, a message larger than a segment and a reopen *)
 Example C09_nonvacuous :
